@@ -57,7 +57,7 @@ def check_image_only(name, kw, case, viol):
         pipe = A.Compose([getattr(A, name)(p=1.0, **kw)], bbox_params=A.BboxParams('pascal_voc_3d'),
                          keypoint_params=A.KeypointParams('xyzas', label_fields=['labels']),
                          additional_targets={'mask2': 'mask'})
-        random.seed(case['seed'])
+        R.seed(case['seed'])
         res = pipe(**data)
     except Exception as e:  # noqa
         # whether a documented configuration runs at all is C08's question
@@ -89,7 +89,7 @@ def check_coarse_dropout(case, viol):
               min_height=1, min_width=1, min_depth=1, fill_value=0, mask_fill_value=case.get('mask_fill'))
     try:
         pipe = A.Compose([A.CoarseDropout(p=1.0, **kw)], keypoint_params=A.KeypointParams('xyz'))
-        random.seed(case['seed'])
+        R.seed(case['seed'])
         res = pipe(image=img, mask=mask, keypoints=kps, dicom=copy.deepcopy(DICOM))
     except Exception as e:  # noqa
         viol.append({'site': 'C12:CoarseDropout:raises', 'kind': 'coarse', 'case': case,
@@ -128,12 +128,12 @@ def run(seed=0, tier='quick', hints=None, broken=False):
         rng.shuffle(cfgs)
         for kw in cfgs[:per]:
             case = {'shape': list(rng.sample([6, 8, 9, 10, 12], 3)), 'channels': rng.choice([None, None, 1, 3]),
-                    'seed': rng.randint(0, 10 ** 6)}
+                    'seed': R.pick_seed(rng)}
             check_image_only(name, kw, case, viol)
             evals += 1
             seen.add((name, repr(kw)))
     for _ in range(25 if tier == 'quick' else 800):
-        case = {'shape': list(rng.sample([4, 5, 6, 8, 10], 3)), 'seed': rng.randint(0, 10 ** 6),
+        case = {'shape': list(rng.sample([4, 5, 6, 8, 10], 3)), 'seed': R.pick_seed(rng),
                 'mask_fill': rng.choice([None, 7])}
         check_coarse_dropout(case, viol)
         evals += 1
